@@ -5,6 +5,7 @@ package server
 import (
 	"github.com/fatedier/frp/pkg/msg"
 	"github.com/fatedier/frp/zzverif"
+	"net"
 )
 
 // VerifC12Relogin: a client logs in again with its run id while the previous session is
@@ -63,4 +64,45 @@ func VerifC12Relogin() {
 	if withProxy {
 		zzverif.Reach("C12.relogin.with-proxy")
 	}
+}
+
+// VerifC12ConcurrentRelogin: two re-logins with the same run id arrive at the same time (the old
+// connection still draining): afterwards the run id designates exactly one session and every
+// other session that ever held it has been replaced and closed, none is left running beside it.
+func VerifC12ConcurrentRelogin() {
+	zzverif.SetPreempt(zzverif.Param("preempt", 1))
+	svr, _, _ := zzPortService()
+	svr.authVerifier = &zzVerifier{loginOK: true}
+	zzNetReset()
+	zzProbeAnswer = true
+	conn1 := &zzConn{name: "old", closeCh: make(chan struct{})}
+	err := svr.RegisterControl(conn1, &msg.Login{RunID: "r1", User: "u"}, false)
+	zzverif.Assume(err == nil)
+	zzverif.Quiesce()
+	conn2 := &zzConn{name: "new-a", closeCh: make(chan struct{})}
+	conn3 := &zzConn{name: "new-b", closeCh: make(chan struct{})}
+	var e3 error
+	done3 := false
+	go func() {
+		e3 = svr.RegisterControl(conn3, &msg.Login{RunID: "r1", User: "u"}, false)
+		done3 = true
+	}()
+	e2 := svr.RegisterControl(conn2, &msg.Login{RunID: "r1", User: "u"}, false)
+	zzverif.Quiesce()
+	zzverif.Assert(done3 && e2 == nil && e3 == nil, "C12.relogin2.both-logins-answered")
+	zzverif.Assert(conn1.closed >= 1, "C12.relogin2.old-connection-closed")
+	live := 0
+	if conn2.closed == 0 {
+		live++
+	}
+	if conn3.closed == 0 {
+		live++
+	}
+	zzverif.Assert(live == 1, "C12.relogin2.exactly-one-session-survives-for-the-run-id")
+	nc, ok := svr.ctlManager.GetByID("r1")
+	zzverif.Assert(ok, "C12.relogin2.run-id-known")
+	if ok {
+		zzverif.Assert((nc.conn == net.Conn(conn2) && conn2.closed == 0) || (nc.conn == net.Conn(conn3) && conn3.closed == 0), "C12.relogin2.run-id-designates-the-surviving-session")
+	}
+	zzverif.Reach("C12.relogin2.done")
 }
